@@ -36,6 +36,8 @@ def build(shape: str, fault: dict | None, absent: str = "") -> dict:
             nd[phase] = steps
         if fault and fault["path"] == p and fault["phase"] == "ctor":
             nd["ctor_fail"] = fault["cls"]
+        if fault and fault.get("byref") and (fault["path"] == p or p in ancestors(fault["path"])):
+            nd["byref"] = True  # declared by a "module:attr" reference, as in a configuration file
     return spec
 
 
@@ -77,6 +79,9 @@ class C07(E1Check):
                                     progs.append({"kind": "fault", "shape": shape, "absent": absent, "timeout": timeout,
                                                   "fault": {"path": p, "phase": phase, "pos": pos, "cls": cls.split("+")[0], "handshake": cls.endswith("+hs")}})
                                     if cls == "E" and not absent and timeout == 5 and pos == "before":
+                                        # the failing component (and its ancestors) declared by reference strings instead of classes
+                                        progs.append({"kind": "fault", "shape": shape, "absent": absent, "timeout": timeout,
+                                                      "fault": {"path": p, "phase": phase, "pos": pos, "cls": "E", "handshake": False, "byref": True}})
                                         # the same with start_component() called in a context nested in two others
                                         progs.append({"kind": "fault", "shape": shape, "absent": absent, "timeout": timeout, "nested": True,
                                                       "fault": {"path": p, "phase": phase, "pos": pos, "cls": "E", "handshake": False}})
@@ -141,7 +146,7 @@ class C07(E1Check):
 
         async with ctx0 as ctx:
             try:
-                inst = await start_component(tree.root_class, {}, timeout=program["timeout"])
+                inst = await start_component(tree.type_decl(tree.spec, tree.root_class), {}, timeout=program["timeout"])
                 st["returned"] = inst
                 env.log("returned", inst is tree.instances.get(""))
             except BaseException as e:  # noqa: BLE001
